@@ -234,6 +234,7 @@ class Scenario:
                     a = _arr(np, c, 5 + self.variant)
                     self.pending[("chunk", "k", c)] = a
                     self.pio.write_chunk(a, "k", c)
+                self.phase = "close"       # every chunk has been handed over
                 return self.acc.close()
             if op == "fetch_chunk":
                 return [self.pio.read_chunk("k", c).tobytes()
@@ -375,7 +376,30 @@ def run_storage(case):
                     continue
                 obs["faults_fired"] += 1
                 label = f"{op}#{k} {errno.errorcode[err]} on {os.path.relpath(path, top)}"
+                retried_ok = False
+                if outcome[0] == "raised" and case["op"] == "store+close" \
+                        and getattr(sc, "phase", None) == "close":
+                    # the cause of the failure is gone: closing again either fails again
+                    # or, if it returns normally, must really have written everything
+                    try:
+                        sc.acc.close()
+                        retried_ok = True
+                        obs["close_retries_returning_normally"] = obs.get(
+                            "close_retries_returning_normally", 0) + 1
+                    except Exception:  # noqa: BLE001
+                        obs["close_retries_failing_again"] = obs.get(
+                            "close_retries_failing_again", 0) + 1
                 audit = sc.audit()
+                if retried_ok:
+                    for it, want in sc.pending.items():
+                        got = audit.get(it)
+                        if want is not None and (got is None or got[0] != "ok"
+                                                 or not _same_value(np, got[1], want)):
+                            v.append({"kind": "close-retried-successfully-but-data-missing",
+                                      "detail": f"{ctx}: {label}: close() failed, was "
+                                      f"called again and returned normally, but {it} is "
+                                      f"{got[0] if got else None} afterwards"})
+                            break
                 if outcome[0] == "raised":
                     exc = outcome[1]
                     cls = "DataAccessError" if isinstance(exc, DataAccessError) else (
